@@ -210,6 +210,7 @@ bool GetUintEnvironmentVariable(const char *env_var_name, std::uint32_t &value)
 
   const char *end  = raw_value.c_str() + raw_value.length();
   char *actual_end = nullptr;
+  errno            = 0;
   const auto temp  = std::strtoull(raw_value.c_str(), &actual_end, 10);
 
   if (errno == ERANGE)
@@ -249,6 +250,7 @@ bool GetFloatEnvironmentVariable(const char *env_var_name, float &value)
 
   const char *end  = raw_value.c_str() + raw_value.length();
   char *actual_end = nullptr;
+  errno            = 0;
   value            = std::strtof(raw_value.c_str(), &actual_end);
 
   if (errno == ERANGE)
